@@ -14,6 +14,10 @@ package vgiotel
 //@   pathflag extracted
 //@   at call propagation.TextMapPropagator.Extract assert [carrier] arg1 == old(ctx)
 //@   at call propagation.TextMapPropagator.Extract mark extracted
+//@   at call propagation.TextMapPropagator.Extract assert [fromrequest] typeof(arg2) == propagation.MapCarrier && as(arg2, "propagation.MapCarrier") == info.TransportMetadata
+//@   pathflag started
+//@   at call trace.Tracer.Start assert [startonce] !started
+//@   at call trace.Tracer.Start mark started
 //@   at call trace.Tracer.Start assert [parented] (old(h.cfg.Propagator) != nil && info.TransportMetadata != nil ==> extracted) && arg1 == ctx
 //@   ensures [local_token_ret2] typeof(result1) == *spanToken && as(result1, "*spanToken").span == span
 
